@@ -22,3 +22,25 @@ def f8(prop, record):
     if spec == 0 and code == mean and mean != 0:
         return "c1(.) / raw_moments_to_centrals(...)[1] is the mean E(X) instead of the first central moment 0"
     return None
+
+
+def degenerate_lower(prop, record):
+    """F8b — `handle_tail_bound_lower_goal` forms (E M − a)² / E (M − a)² and calls `.simplify()`.  When M is
+    almost surely constant with a symbolic value (uninitialised variable / parameter), numerator and
+    denominator are the same polynomial and the quotient is simplified to 1 — also at the points where
+    M = a, where the quotient is 0/0 and P(M > a) = 0.  Exact signature: lower-bound goal, at this n the
+    exact law of M is the point mass at a (second moment about a is 0), the code's value is exactly 1
+    and the exact probability is 0."""
+    if prop != "C11" or record.get("kind") != "lower-degenerate":
+        return None
+    try:
+        if Fr(record["lower_den"]) != 0 or Fr(record["code"]) != 1 or Fr(record["spec"]) != 0:
+            return None
+        law = record.get("law_at_n") or []
+        a = Fr(record["a_lo"])
+        if not law or any(Fr(v) != a for _, v in law):
+            return None
+    except Exception:
+        return None
+    return ("P(M > a) >= 1 reported where M = a almost surely: the second-moment bound 0/0 is simplified to 1 "
+            "for an almost surely constant M with symbolic value")
